@@ -22,9 +22,10 @@ LONG, SHORT = "long", "short"
 class Abs:
     """evaluates Side/Direction-valued trees under an assignment {side: Buy|Sell|None, kind: long|short}"""
 
-    def __init__(self, ctx, em, step, side, kind, tmp_side=None):
+    def __init__(self, ctx, em, step, side, kind, tmp_side=None, dir_known=True):
         self.ctx, self.em, self.ix, self.step = ctx, em, ctx.ix, step
         self.side, self.kind, self.tmp_side = side, kind, tmp_side
+        self.dir_known = dir_known   # False: the loaded record's direction is not assumed to follow its size (zero-size records)
 
     def leaf(self, v):
         ix = self.ix
@@ -37,6 +38,8 @@ class Abs:
         if self.em.tmp(vi, "side"):
             return self.tmp_side
         if tag(vi) == "field" and payload(vi)[0] == "direction" and self.em.is_position_value(kids(vi)[0]):
+            if not self.dir_known:
+                return None
             return "AddToAmm" if self.kind == LONG else "RemoveFromAmm"
         if tag(vi) == "field" and payload(vi)[0] == "size" and self.em.is_position_value(kids(vi)[0]):
             return ("size", self.kind)
@@ -128,6 +131,7 @@ def run(ctx):
     ctx.rule("R02.1", "sign and operand of the engine's size change agree with the vAMM's net-position change on every swap edge and assignment", 9)
     ctx.rule("R02.2", "whole-position swaps use size.value in the position's direction and remove / zero the position; swap replies always store or remove", 9)
     ctx.rule("R02.3", "event attribute keys and type values: engine parser vs vAMM emitters", 3)
+    ctx.rule("R02.5", "the direction stored with a changed size follows the sign of that size: taken from the acting side where the size grows (the old size may be zero), kept only where it shrinks", 5)
 
     # ---------------------------------------------------------------- vAMM side tables
     delta = {}   # (variant, direction) -> '+' / '-'
@@ -257,6 +261,8 @@ def run(ctx):
         inp, outp = em.reply_io(rst)
         sides = ("Buy", "Sell") if root == "OpenPosition" else (None,)
         problems = _PV()
+        dir_problems = []
+        dir_checked = [0]
         checked = 0
         per_variant_checked = {}
         whole_ok = None
@@ -393,6 +399,24 @@ def run(ctx):
                                 problems.append("(side=%s,%s): size changes by the swap's `%s` but the base amount of a %s is `%s`" % (side, kind, opnd, variant, bo))
                             if sign != dtps:
                                 problems.append("(side=%s,%s): engine size %s, vAMM net position %s (message %s %s)" % (side, kind, sign, dtps, variant, dval))
+                            # ---- R02.5: the direction stored with the new size.  A live record's direction follows its size
+                            # (long <=> AddToAmm), a zero-size record's direction is arbitrary (fresh default, left over by an
+                            # exact reversal).  On a path where the size grows in the acting side's direction the old size may be
+                            # zero, so the stored direction must come from the side that signs the change, not from the record.
+                            dtree = sym.field(stored[-1], "direction")
+                            d_free = Abs(ctx, em, rst, side, kind, tside, dir_known=False).ev(dtree)
+                            grows = sign == ("+" if kind == LONG else "-")
+                            dir_checked[0] += 1
+                            if d_free in ("AddToAmm", "RemoveFromAmm"):
+                                if (d_free == "AddToAmm") != (sign == "+"):
+                                    dir_problems.append("(side=%s,%s): size changes by %s but the stored direction is %s" % (side, kind, sign, d_free))
+                            else:
+                                d_as = ra.ev(dtree)
+                                if d_as not in ("AddToAmm", "RemoveFromAmm"):
+                                    dir_problems.append("(side=%s,%s): stored direction %s is not determined" % (side, kind, sym.show(ix.inline(rst.c(dtree)), 4)))
+                                elif grows:
+                                    dir_problems.append("(side=%s,%s): the size grows by the acting side's amount but the stored direction is the loaded record's (%s): "
+                                                        "a zero-size record left by an exact reversal keeps a stale direction" % (side, kind, sym.show(ix.inline(rst.c(dtree)), 4)))
         uniq = sorted(set(p for (_v, p) in problems.items))
         for variant in sorted(set(per_variant_checked) | {v for (v, _p) in problems.items if v}):
             pv = sorted(set(p for (v, p) in problems.items if v == variant))
@@ -400,6 +424,10 @@ def run(ctx):
                      "%d (assignment, emitter path, reply path) combinations checked; %s" % (per_variant_checked.get(variant, 0), "; ".join(pv[:4]) or "sign and operand agree in all"))
         if not per_variant_checked and not problems.items:
             ctx.inst("R02.1", "edge:%s" % ckey, False, rst.fn.where(), "no swap message / reply path combination could be evaluated")
+        if dir_checked[0]:
+            dp = sorted(set(dir_problems))
+            ctx.inst("R02.5", "stored-direction:%s" % ckey, not dp, rst.fn.where(),
+                     "%d stores of a changed size checked; %s" % (dir_checked[0], "; ".join(dp[:3]) or "direction derives from the side that signs the change, or the size shrinks"))
         if whole_ok:
             ctx.inst("R02.2", "whole-swap:%s" % ckey, not any("removed/zeroed" in p for p in uniq), rst.fn.where(),
                      "position removed/zeroed only after SwapOutput of size.value in the position's own direction")
